@@ -15,8 +15,10 @@ use itertools::Itertools;
 use std::ops::Deref;
 
 #[cfg(feature = "parallel")]
+#[cfg(not(nuts_rs_verif))]
 use rayon::{ScopeFifo, ThreadPoolBuilder};
 #[cfg(feature = "parallel")]
+#[cfg(not(nuts_rs_verif))]
 use std::{
     sync::{
         Arc, Mutex,
@@ -26,6 +28,14 @@ use std::{
     },
     thread::{JoinHandle, spawn},
     time::Instant,
+};
+// Verification seam (off by default): under `--cfg nuts_rs_verif` the synchronisation, thread, clock
+// and worker-pool primitives come from the deterministic-simulation runtime instead of std/rayon.
+#[cfg(feature = "parallel")]
+#[cfg(nuts_rs_verif)]
+use nuts_rs_verif_rt::{
+    Arc, Instant, JoinHandle, Mutex, Receiver, RecvTimeoutError, ScopeFifo, Sender, SyncSender,
+    ThreadPoolBuilder, TryRecvError, channel, spawn, sync_channel,
 };
 
 use crate::{
